@@ -48,6 +48,24 @@ theorem find_modify (t : Table) (n : Str) (f : Entry → Entry) (hf : ∀ e, (f 
         simp [hp, this]
       · simp only [hp, if_false]; rw [ih]
 
+/-- **the generated case split is the five-way split the lemmas below reason about** – re-proved against
+`Gen.REQ_MERGE_ROWS` (read off requirements.py) on every run -/
+theorem branch_eq_ref (ver : Ver V) (cur : Option Str) (new : Str) : branch ver cur new = branchRef ver cur new := by
+  unfold branch branchRef
+  simp only [Gen.REQ_MERGE_ROWS, branchRows, condHolds]
+  cases cur with
+  | none => simp
+  | some c =>
+    by_cases hc : c = []
+    · subst hc; simp
+    · by_cases hn : new = UNP <;> by_cases hu : c = UNP
+      · subst hn; subst hu; simp [hc]
+      · subst hn; simp [hc, hu]
+      · subst hu; simp [hc, hn]
+      · cases hpc : ver.parse c <;> cases hpn : ver.parse new <;> simp [hc, hn, hu, verCmp, hpc, hpn]
+        rename_i a b
+        cases h1 : ver.le a b <;> cases h2 : ver.le b a <;> simp
+
 /-- what one accepted line does to the recorded version string of package `name` -/
 def stepV (ver : Ver V) (cur : Option Str) (name new : Str) : Option Str :=
   match branch ver cur new with
@@ -59,7 +77,7 @@ def stepV (ver : Ver V) (cur : Option Str) (name new : Str) : Option Str :=
 theorem branch_bump_some (ver : Ver V) (cur : Option Str) (new : Str) (h : branch ver cur new = .bump) :
     ∃ c, cur = some c := by
   cases cur with
-  | none => simp [branch] at h
+  | none => simp [branch_eq_ref, branchRef] at h
   | some c => exact ⟨c, rfl⟩
 
 theorem versionOf_merge1 (ver : Ver V) (site : Str → Option Str) (t : Table) (src : Nat) (name new p : Str) :
@@ -100,27 +118,22 @@ theorem versionOf_merge1 (ver : Ver V) (site : Str → Option Str) (t : Table) (
 
 /-- per-package view of one raw line -/
 def stepLine (cfg : Cfg) (ver : Ver V) (p : Str) (cur : Option Str) (l : Nat × Str) : Option Str :=
-  match parseLine cfg l.2 with
+  match meaning cfg ver l.2 with
   | none => cur
-  | some (name, pin) =>
-    if rejectedByFix cfg ver pin then cur
-    else if name = p then stepV ver cur p (newVersion pin) else cur
+  | some (key, pin) => if key = p then stepV ver cur p (newVersion pin) else cur
 
 theorem versionOf_processLine (cfg : Cfg) (ver : Ver V) (site : Str → Option Str) (t : Table) (l : Nat × Str) (p : Str) :
     versionOf (processLine cfg ver site t l) p = stepLine cfg ver p (versionOf t p) l := by
   unfold processLine stepLine
-  cases hpl : parseLine cfg l.2 with
+  cases hpl : meaning cfg ver l.2 with
   | none => rfl
   | some np =>
     obtain ⟨name, pin⟩ := np
-    simp only
-    by_cases hr : rejectedByFix cfg ver pin = true
-    · simp [hr]
-    · simp only [hr, Bool.false_eq_true, if_false, versionOf_merge1]
-      by_cases hp : p = name
-      · subst hp; simp
-      · have : ¬ name = p := fun h => hp h.symm
-        simp [hp, this]
+    simp only [versionOf_merge1]
+    by_cases hp : p = name
+    · subst hp; simp
+    · have : ¬ name = p := fun h => hp h.symm
+      simp [hp, this]
 
 theorem versionOf_foldl (cfg : Cfg) (ver : Ver V) (site : Str → Option Str) (ls : List (Nat × Str)) (t : Table) (p : Str) :
     versionOf (ls.foldl (processLine cfg ver site) t) p = ls.foldl (stepLine cfg ver p) (versionOf t p) := by
@@ -128,11 +141,11 @@ theorem versionOf_foldl (cfg : Cfg) (ver : Ver V) (site : Str → Option Str) (l
   | nil => rfl
   | cons l ls ih => simp only [List.foldl_cons, ih, versionOf_processLine]
 
-/-- the new-version strings that lines contribute to package `p` (after parsing and the optional fix) -/
+/-- the new-version strings that lines contribute to package `p` (after parsing, the optional fix and the key map) -/
 def newsFor (cfg : Cfg) (ver : Ver V) (p : Str) (ls : List (Nat × Str)) : List Str :=
-  ls.filterMap (fun l => match parseLine cfg l.2 with
+  ls.filterMap (fun l => match meaning cfg ver l.2 with
     | none => none
-    | some (name, pin) => if rejectedByFix cfg ver pin then none else if name = p then some (newVersion pin) else none)
+    | some (key, pin) => if key = p then some (newVersion pin) else none)
 
 theorem foldl_stepLine (cfg : Cfg) (ver : Ver V) (p : Str) (ls : List (Nat × Str)) (cur : Option Str) :
     ls.foldl (stepLine cfg ver p) cur = (newsFor cfg ver p ls).foldl (fun c n => stepV ver c p n) cur := by
@@ -141,39 +154,49 @@ theorem foldl_stepLine (cfg : Cfg) (ver : Ver V) (p : Str) (ls : List (Nat × St
   | cons l ls ih =>
     simp only [List.foldl_cons, newsFor, List.filterMap_cons]
     unfold stepLine
-    cases hpl : parseLine cfg l.2 with
+    cases hpl : meaning cfg ver l.2 with
     | none => simp only; exact ih cur
     | some np =>
       obtain ⟨name, pin⟩ := np
       simp only
-      by_cases hr : rejectedByFix cfg ver pin = true
-      · simp only [hr, if_true]; exact ih cur
-      · simp only [hr, Bool.false_eq_true, if_false]
-        by_cases hn : name = p
-        · simp only [hn, if_true, List.foldl_cons]; exact ih _
-        · simp only [hn, if_false]; exact ih cur
+      by_cases hn : name = p
+      · simp only [hn, if_true, List.foldl_cons]; exact ih _
+      · simp only [hn, if_false]; exact ih cur
 
 theorem mem_newsFor (cfg : Cfg) (ver : Ver V) (p : Str) (ls : List (Nat × Str)) (n : Str) :
-    n ∈ newsFor cfg ver p ls ↔
-      ∃ l ∈ ls, ∃ pin, parseLine cfg l.2 = some (p, pin) ∧ rejectedByFix cfg ver pin = false ∧ n = newVersion pin := by
+    n ∈ newsFor cfg ver p ls ↔ ∃ l ∈ ls, ∃ pin, meaning cfg ver l.2 = some (p, pin) ∧ n = newVersion pin := by
   simp only [newsFor, List.mem_filterMap]
   constructor
   · rintro ⟨l, hl, h⟩
     refine ⟨l, hl, ?_⟩
-    cases hpl : parseLine cfg l.2 with
+    cases hpl : meaning cfg ver l.2 with
     | none => simp [hpl] at h
     | some np =>
       obtain ⟨name, pin⟩ := np
       simp only [hpl] at h
-      by_cases hr : rejectedByFix cfg ver pin = true
-      · simp [hr] at h
-      · by_cases hn : name = p
-        · subst hn
-          simp only [hr, Bool.false_eq_true, if_false, if_true, Option.some.injEq] at h
-          exact ⟨pin, rfl, by simpa using hr, h.symm⟩
-        · simp [hr, hn] at h
-  · rintro ⟨l, hl, pin, hpl, hr, hn⟩
-    exact ⟨l, hl, by simp [hpl, hr, hn]⟩
+      by_cases hn : name = p
+      · subst hn
+        simp only [if_true, Option.some.injEq] at h
+        exact ⟨pin, rfl, h.symm⟩
+      · simp [hn] at h
+  · rintro ⟨l, hl, pin, hpl, hn⟩
+    exact ⟨l, hl, by simp [hpl, hn]⟩
+
+/-- what `meaning = some` says about the parsed line -/
+theorem meaning_some (cfg : Cfg) (ver : Ver V) (raw k : Str) (pin : Option Str) (h : meaning cfg ver raw = some (k, pin)) :
+    ∃ n, parseLine cfg raw = some (n, pin) ∧ rejectedByFix cfg ver pin = false ∧ k = keyOf cfg n := by
+  unfold meaning at h
+  cases hpl : parseLine cfg raw with
+  | none => simp [hpl] at h
+  | some np =>
+    obtain ⟨n, q⟩ := np
+    simp only [hpl] at h
+    by_cases hr : rejectedByFix cfg ver q = true
+    · simp [hr] at h
+    · simp only [hr, Bool.false_eq_true, if_false, Option.some.injEq, Prod.mk.injEq] at h
+      obtain ⟨h1, h2⟩ := h
+      subst h2
+      exact ⟨n, rfl, by simpa using hr, h1.symm⟩
 
 theorem versionOf_mergeAll (cfg : Cfg) (ver : Ver V) (site : Str → Option Str) (ls : List (Nat × Str)) (p : Str) :
     versionOf (mergeAll cfg ver site ls) p = (newsFor cfg ver p ls).foldl (fun c n => stepV ver c p n) none := by
@@ -198,7 +221,7 @@ def IsBest (ver : Ver V) (ns : List Str) (r : Option Str) : Prop :=
 
 theorem UNP_ne_nil : UNP ≠ [] := by decide
 
-theorem branch_none (ver : Ver V) (n : Str) : branch ver none n = .record := rfl
+theorem branch_none (ver : Ver V) (n : Str) : branch ver none n = .record := by rw [branch_eq_ref]; rfl
 
 theorem isBest_step (ver : Ver V) (ok : VerOk ver) (p : Str) (hp : p ≠ []) (pre : List Str) (cur : Option Str)
     (n : Str) (hpre : ∀ x ∈ pre, GoodNew ver x) (hn : GoodNew ver n) (h : IsBest ver pre cur) :
@@ -222,14 +245,14 @@ theorem isBest_step (ver : Ver V) (ok : VerOk ver) (p : Str) (hp : p ≠ []) (pr
       simp only [if_true] at h
       by_cases hu : n = UNP
       · subst hu
-        have : branch ver (some UNP) UNP = .addSource := by simp [branch, UNP_ne_nil]
+        have : branch ver (some UNP) UNP = .addSource := by simp [branch_eq_ref, branchRef, UNP_ne_nil]
         simp only [stepV, this, IsBest, if_true]
         refine ⟨by simp, ?_⟩
         intro x hx
         rcases List.mem_append.1 hx with hx | hx
         · exact h.2 x hx
         · simpa using hx
-      · have : branch ver (some UNP) n = .record := by simp [branch, UNP_ne_nil, hu]
+      · have : branch ver (some UNP) n = .record := by simp [branch_eq_ref, branchRef, UNP_ne_nil, hu]
         simp only [stepV, this, hp, if_false, IsBest, hu]
         refine ⟨by simp, ?_⟩
         intro u hu' hne
@@ -249,7 +272,7 @@ theorem isBest_step (ver : Ver V) (ok : VerOk ver) (p : Str) (hp : p ≠ []) (pr
         intro h0; rw [h0, ok.empty] at ha; cases ha
       by_cases hu : n = UNP
       · subst hu
-        have : branch ver (some c) UNP = .keep := by simp [branch, hcne, hc]
+        have : branch ver (some c) UNP = .keep := by simp [branch_eq_ref, branchRef, hcne, hc]
         simp only [stepV, this, IsBest, hc, if_false]
         refine ⟨by simp [hcm], ?_⟩
         intro u hu' hne
@@ -263,7 +286,7 @@ theorem isBest_step (ver : Ver V) (ok : VerOk ver) (p : Str) (hp : p ≠ []) (pr
           · exact h1
         have hbr : branch ver (some c) n =
             if ver.le a b && ver.le b a then .addSource else if ver.le a b then .bump else .keep := by
-          simp [branch, hcne, hc, hu, ha, hb]
+          simp [branch_eq_ref, branchRef, hcne, hc, hu, ha, hb]
         by_cases h1 : ver.le a b = true
         · by_cases h2 : ver.le b a = true
           · have : branch ver (some c) n = .addSource := by simp [hbr, h1, h2]
@@ -387,16 +410,18 @@ theorem isBest_unique (ver : Ver V) (ns ns' : List Str) (r r' : Option Str)
 theorem news_good_of_lines (cfg : Cfg) (ver : Ver V) (p : Str) (ls : List (Nat × Str))
     (h : ∀ l ∈ ls, GoodLine cfg ver l.2) : ∀ x ∈ newsFor cfg ver p ls, GoodNew ver x := by
   intro x hx
-  obtain ⟨l, hl, pin, hpl, _, rfl⟩ := (mem_newsFor cfg ver p ls x).1 hx
+  obtain ⟨l, hl, pin, hpl, rfl⟩ := (mem_newsFor cfg ver p ls x).1 hx
+  obtain ⟨n, hn, _, _⟩ := meaning_some cfg ver l.2 p pin hpl
   cases pin with
   | none => left; rfl
-  | some v => exact h l hl p v hpl
+  | some v => exact h l hl n v hn
 
 /-- with the repair every string that reaches the merge is good, whatever the lines are -/
 theorem news_good_of_fix (cfg : Cfg) (ver : Ver V) (hfix : cfg.validateFirstPin = true) (p : Str)
     (ls : List (Nat × Str)) : ∀ x ∈ newsFor cfg ver p ls, GoodNew ver x := by
   intro x hx
-  obtain ⟨l, _, pin, _, hr, rfl⟩ := (mem_newsFor cfg ver p ls x).1 hx
+  obtain ⟨l, _, pin, hpl, rfl⟩ := (mem_newsFor cfg ver p ls x).1 hx
+  obtain ⟨n, _, hr, _⟩ := meaning_some cfg ver l.2 p pin hpl
   cases pin with
   | none => left; rfl
   | some v =>
@@ -433,10 +458,10 @@ theorem order_of_good (cfg : Cfg) (ver : Ver V) (ok : VerOk ver) (site site' : S
 /-! ## C. connection with the reference selection -/
 
 theorem specLine_some (ver : Ver V) (raw n : Str) (pin : Option Str) (h : specLine ver raw = some (n, pin)) :
-    (∃ m, parseLineWith SPEC_PATS raw = some (m, pin) ∧ n = normName m ∧ plainName m = true) ∧
+    (∃ m, parseLineWith SPEC_PATS false raw = some (m, pin) ∧ n = normName m ∧ plainName m = true) ∧
       ∀ v, pin = some v → ∃ a, ver.parse v = some a := by
   unfold specLine at h
-  cases hpl : parseLineWith SPEC_PATS raw with
+  cases hpl : parseLineWith SPEC_PATS false raw with
   | none => simp [hpl] at h
   | some np =>
     obtain ⟨m, q⟩ := np
@@ -475,11 +500,11 @@ theorem normName_ne_nil (n : Str) (h : n ≠ []) : normName n ≠ [] := by
     · simp
 
 theorem selected_mergeAll (cfg : Cfg) (ver : Ver V) (ok : VerOk ver) (site : Str → Option Str)
-    (ls : List (Nat × Str)) (hspec : ∀ l ∈ ls, parseLine cfg l.2 = specLine ver l.2) (p : Str) :
+    (ls : List (Nat × Str)) (hspec : ∀ l ∈ ls, meaning cfg ver l.2 = specLine ver l.2) (p : Str) :
     Selected ver (ls.filterMap (fun l => specLine ver l.2)) p (versionOf (mergeAll cfg ver site ls) p) := by
   -- membership in the meanings
   have hms : ∀ q pin, (q, pin) ∈ ls.filterMap (fun l => specLine ver l.2) ↔
-      ∃ l ∈ ls, parseLine cfg l.2 = some (q, pin) := by
+      ∃ l ∈ ls, meaning cfg ver l.2 = some (q, pin) := by
     intro q pin
     simp only [List.mem_filterMap]
     constructor
@@ -491,22 +516,15 @@ theorem selected_mergeAll (cfg : Cfg) (ver : Ver V) (ok : VerOk ver) (site : Str
     obtain ⟨l, _, hl⟩ := List.mem_filterMap.1 h
     obtain ⟨⟨m, _, hq, hm⟩, hv⟩ := specLine_some ver l.2 q pin hl
     exact ⟨by rw [hq]; exact normName_ne_nil m (plainName_ne_nil m hm), hv⟩
-  have hrej : ∀ q pin, (q, pin) ∈ ls.filterMap (fun l => specLine ver l.2) → rejectedByFix cfg ver pin = false := by
-    intro q pin h
-    cases pin with
-    | none => simp [rejectedByFix]
-    | some v =>
-      obtain ⟨a, ha⟩ := (hvalid q _ h).2 v rfl
-      simp [rejectedByFix, ha]
   have hnews : ∀ n, n ∈ newsFor cfg ver p ls ↔
       ∃ pin, (p, pin) ∈ ls.filterMap (fun l => specLine ver l.2) ∧ n = newVersion pin := by
     intro n
     rw [mem_newsFor]
     constructor
-    · rintro ⟨l, hl, pin, hpl, _, hn⟩; exact ⟨pin, (hms p pin).2 ⟨l, hl, hpl⟩, hn⟩
+    · rintro ⟨l, hl, pin, hpl, hn⟩; exact ⟨pin, (hms p pin).2 ⟨l, hl, hpl⟩, hn⟩
     · rintro ⟨pin, hm, hn⟩
       obtain ⟨l, hl, hpl⟩ := (hms p pin).1 hm
-      exact ⟨l, hl, pin, hpl, hrej p pin hm, hn⟩
+      exact ⟨l, hl, pin, hpl, hn⟩
   by_cases hp : p = []
   · subst hp
     rw [versionOf_mergeAll, foldl_stepV_nil]
@@ -578,8 +596,17 @@ theorem strip_allWs (s : Str) (h : ∀ c ∈ s, isWs c = true) : strip s = [] :=
   rw [h1]
   rfl
 
+/-! the shape parameters read off the source, in the form the lemmas use them; every `rfl` here is re-checked against
+`Gen/ReqTbl.lean` on every run -/
+theorem mark_eq : Gen.REQ_COMMENT_MARK = '#' := rfl
+theorem skipBlank_eq : Gen.REQ_SKIP_BLANK = true := rfl
+theorem maxParts_eq : Gen.REQ_MAX_PARTS = 2 := rfl
+theorem pinSep_eq : Gen.REQ_PIN_SEP = ('=', '=') := rfl
+theorem optinGuard_eq : Gen.REQ_OPTIN_GUARD = true := rfl
+theorem body_eq (raw : Str) : body raw = strip (cutComment raw) := rfl
+
 theorem parseLine_of_body_nil (cfg : Cfg) (raw : Str) (h : body raw = []) : parseLine cfg raw = none := by
-  simp [parseLine, parseLineWith, h]
+  simp [parseLine, parseLineWith, h, skipBlank_eq]
 
 theorem parseLine_of_specPat (cfg : Cfg) (raw : Str) (h : hasSpecPat cfg.specPats (body raw) = true) :
     parseLine cfg raw = none := by
@@ -625,17 +652,20 @@ theorem parseLine_of_many_parts (cfg : Cfg) (raw : Str) (h : 2 < (splitEq (body 
     split
     · rfl
     · split
-      · next h1 => rw [h1] at h; simp at h
-      · next h1 => rw [h1] at h; simp at h
       · rfl
+      · next h1 => rw [h1] at h; simp at h
+      · next h1 =>
+        rw [h1] at h
+        simp only [List.length_cons] at h
+        rw [maxParts_eq, if_pos (by omega)]
 
 theorem cutComment_append_hash (raw tail : Str) (h : '#' ∉ raw) : cutComment (raw ++ '#' :: tail) = raw := by
   induction raw with
-  | nil => simp [cutComment]
+  | nil => simp [cutComment, mark_eq]
   | cons c cs ih =>
     have hc : c ≠ '#' := fun e => h (by simp [e])
     have hcs : '#' ∉ cs := fun e => h (by simp [e])
-    simp only [cutComment, List.cons_append] at ih ⊢
+    simp only [cutComment, List.cons_append, mark_eq] at ih ⊢
     rw [List.takeWhile_cons]
     simp only [bne_iff_ne, ne_eq, hc, not_false_eq_true, if_true]
     rw [ih hcs]
@@ -646,7 +676,7 @@ theorem cutComment_no_hash (raw : Str) (h : '#' ∉ raw) : cutComment raw = raw 
   | cons c cs ih =>
     have hc : c ≠ '#' := fun e => h (by simp [e])
     have hcs : '#' ∉ cs := fun e => h (by simp [e])
-    simp only [cutComment] at ih ⊢
+    simp only [cutComment, mark_eq] at ih ⊢
     rw [List.takeWhile_cons]
     simp only [bne_iff_ne, ne_eq, hc, not_false_eq_true, if_true]
     rw [ih hcs]
@@ -701,31 +731,31 @@ theorem rget_rset (r : Rec) (n v m : Str) : rget (rset r n v) m = if n = m then 
 
 /-- entries the loop passes to the installer, and names it drops from the record, as functions of the record
 at loop entry (valid when package names are unique) -/
-def installs (ver : Ver V) (r : Rec) (t : Table) : List Entry :=
-  t.filter (fun e => decidePkg ver (rget r e.name) e == .install)
+def installs (cfg : Cfg) (ver : Ver V) (r : Rec) (t : Table) : List Entry :=
+  t.filter (fun e => decidePkg cfg ver (rget r e.name) e == .install)
 
-def popped (ver : Ver V) (r : Rec) (t : Table) (n : Str) : Bool :=
-  t.any (fun e => e.name == n && decidePkg ver (rget r e.name) e == .pop)
+def popped (cfg : Cfg) (ver : Ver V) (r : Rec) (t : Table) (n : Str) : Bool :=
+  t.any (fun e => e.name == n && decidePkg cfg ver (rget r e.name) e == .pop)
 
-def raises (ver : Ver V) (r : Rec) (t : Table) : Bool :=
-  t.any (fun e => decidePkg ver (rget r e.name) e == .raise)
+def raises (cfg : Cfg) (ver : Ver V) (r : Rec) (t : Table) : Bool :=
+  t.any (fun e => decidePkg cfg ver (rget r e.name) e == .raise)
 
-theorem raises_cons (ver : Ver V) (r : Rec) (e : Entry) (es : Table) :
-    raises ver r (e :: es) = (decidePkg ver (rget r e.name) e == .raise || raises ver r es) := by
+theorem raises_cons (cfg : Cfg) (ver : Ver V) (r : Rec) (e : Entry) (es : Table) :
+    raises cfg ver r (e :: es) = (decidePkg cfg ver (rget r e.name) e == .raise || raises cfg ver r es) := by
   simp [raises]
 
-theorem popped_cons (ver : Ver V) (r : Rec) (e : Entry) (es : Table) (n : Str) :
-    popped ver r (e :: es) n = ((e.name == n && decidePkg ver (rget r e.name) e == .pop) || popped ver r es n) := by
+theorem popped_cons (cfg : Cfg) (ver : Ver V) (r : Rec) (e : Entry) (es : Table) (n : Str) :
+    popped cfg ver r (e :: es) n = ((e.name == n && decidePkg cfg ver (rget r e.name) e == .pop) || popped cfg ver r es n) := by
   simp [popped]
 
-theorem installs_cons (ver : Ver V) (r : Rec) (e : Entry) (es : Table) :
-    installs ver r (e :: es) =
-      if decidePkg ver (rget r e.name) e == .install then e :: installs ver r es else installs ver r es := by
+theorem installs_cons (cfg : Cfg) (ver : Ver V) (r : Rec) (e : Entry) (es : Table) :
+    installs cfg ver r (e :: es) =
+      if decidePkg cfg ver (rget r e.name) e == .install then e :: installs cfg ver r es else installs cfg ver r es := by
   simp only [installs, List.filter_cons]
 
-theorem loop_congr (ver : Ver V) (r r' : Rec) (es : Table) (h : ∀ x ∈ es, rget r' x.name = rget r x.name) :
-    raises ver r' es = raises ver r es ∧ installs ver r' es = installs ver r es ∧
-    ∀ n, popped ver r' es n = popped ver r es n := by
+theorem loop_congr (cfg : Cfg) (ver : Ver V) (r r' : Rec) (es : Table) (h : ∀ x ∈ es, rget r' x.name = rget r x.name) :
+    raises cfg ver r' es = raises cfg ver r es ∧ installs cfg ver r' es = installs cfg ver r es ∧
+    ∀ n, popped cfg ver r' es n = popped cfg ver r es n := by
   induction es with
   | nil => simp [raises, installs, popped]
   | cons x xs ih =>
@@ -736,11 +766,11 @@ theorem loop_congr (ver : Ver V) (r r' : Rec) (es : Table) (h : ∀ x ∈ es, rg
     · rw [installs_cons, installs_cons, hx, i2]
     · intro n; rw [popped_cons, popped_cons, hx, i3]
 
-theorem decideLoop_spec (ver : Ver V) (t : Table) (hnd : (t.map (·.name)).Nodup) (st : LoopSt) :
-    decideLoop ver t st =
-      if raises ver st.recd t then none
-      else some { recd := st.recd.filter (fun kv => !popped ver st.recd t kv.1),
-                  toInstall := st.toInstall ++ installs ver st.recd t } := by
+theorem decideLoop_spec (cfg : Cfg) (ver : Ver V) (t : Table) (hnd : (t.map (·.name)).Nodup) (st : LoopSt) :
+    decideLoop cfg ver t st =
+      if raises cfg ver st.recd t then none
+      else some { recd := st.recd.filter (fun kv => !popped cfg ver st.recd t kv.1),
+                  toInstall := st.toInstall ++ installs cfg ver st.recd t } := by
   induction t generalizing st with
   | nil =>
     cases st
@@ -760,7 +790,7 @@ theorem decideLoop_spec (ver : Ver V) (t : Table) (hnd : (t.map (·.name)).Nodup
     have d6 : (PkgDec.pop == PkgDec.raise) = false := by decide
     have d7 : (PkgDec.pop == PkgDec.install) = false := by decide
     simp only [decideLoop, raises_cons, popped_cons, installs_cons]
-    cases hd : decidePkg ver (rget st.recd e.name) e with
+    cases hd : decidePkg cfg ver (rget st.recd e.name) e with
     | raise => simp [applyDec]
     | install =>
       simp only [applyDec]
@@ -775,9 +805,9 @@ theorem decideLoop_spec (ver : Ver V) (t : Table) (hnd : (t.map (·.name)).Nodup
       rw [ih hnd']
       have hcongr : ∀ x ∈ es, rget (rpop st.recd e.name) x.name = rget st.recd x.name := by
         intro x hx; rw [rget_rpop]; simp [hne' x hx]
-      obtain ⟨c1, c2, c3⟩ := loop_congr ver st.recd (rpop st.recd e.name) es hcongr
-      have hf : List.filter (fun kv => !popped ver st.recd es kv.1) (rpop st.recd e.name)
-          = List.filter (fun kv => !(e.name == kv.1 || popped ver st.recd es kv.1)) st.recd := by
+      obtain ⟨c1, c2, c3⟩ := loop_congr cfg ver st.recd (rpop st.recd e.name) es hcongr
+      have hf : List.filter (fun kv => !popped cfg ver st.recd es kv.1) (rpop st.recd e.name)
+          = List.filter (fun kv => !(e.name == kv.1 || popped cfg ver st.recd es kv.1)) st.recd := by
         simp only [rpop, List.filter_filter]
         apply List.filter_congr
         intro kv _
@@ -820,13 +850,13 @@ theorem find_of_mem_nodup (t : Table) (hnd : (t.map (·.name)).Nodup) (e : Entry
       simp only [this, if_false]
       exact ih hnd.2 he'
 
-theorem mem_installs (ver : Ver V) (r : Rec) (t : Table) (e : Entry) :
-    e ∈ installs ver r t ↔ e ∈ t ∧ decidePkg ver (rget r e.name) e = .install := by
+theorem mem_installs (cfg : Cfg) (ver : Ver V) (r : Rec) (t : Table) (e : Entry) :
+    e ∈ installs cfg ver r t ↔ e ∈ t ∧ decidePkg cfg ver (rget r e.name) e = .install := by
   simp [installs, List.mem_filter]
 
-theorem popped_eq (ver : Ver V) (r : Rec) (t : Table) (hnd : (t.map (·.name)).Nodup) (m : Str) :
-    popped ver r t m = match find t m with
-      | some e => decidePkg ver (rget r m) e == .pop
+theorem popped_eq (cfg : Cfg) (ver : Ver V) (r : Rec) (t : Table) (hnd : (t.map (·.name)).Nodup) (m : Str) :
+    popped cfg ver r t m = match find t m with
+      | some e => decidePkg cfg ver (rget r m) e == .pop
       | none => false := by
   cases hf : find t m with
   | none =>
@@ -837,7 +867,7 @@ theorem popped_eq (ver : Ver V) (r : Rec) (t : Table) (hnd : (t.map (·.name)).N
     obtain ⟨he, hn⟩ := find_some_mem t m e hf
     subst hn
     simp only
-    cases hd : (decidePkg ver (rget r e.name) e == PkgDec.pop) with
+    cases hd : (decidePkg cfg ver (rget r e.name) e == PkgDec.pop) with
     | true =>
       simp only [popped, List.any_eq_true, Bool.and_eq_true, beq_iff_eq]
       exact ⟨e, he, rfl, by simpa using hd⟩
@@ -866,16 +896,17 @@ theorem rget_filter_key (r : Rec) (f : Str → Bool) (m : Str) :
       · subst hm; simp [hk]
       · simp [hm]
 
-theorem phase1_go (ver : Ver V) (allow : Bool) (t : Table) (hnd : (t.map (·.name)).Nodup) (r r1 : Rec)
-    (ti : List Entry) (h : phase1 ver allow t r = .go r1 ti) :
-    (t = [] ∨ allow = true) ∧ raises ver r t = false ∧
-    r1 = r.filter (fun kv => !popped ver r t kv.1) ∧ ti = installs ver r t := by
+theorem phase1_go (cfg : Cfg) (ver : Ver V) (allow : Bool) (t : Table) (hnd : (t.map (·.name)).Nodup) (r r1 : Rec)
+    (ti : List Entry) (h : phase1 cfg ver allow t r = .go r1 ti) :
+    (t = [] ∨ allow = true) ∧ raises cfg ver r t = false ∧
+    r1 = r.filter (fun kv => !popped cfg ver r t kv.1) ∧ ti = installs cfg ver r t := by
   unfold phase1 at h
+  rw [optinGuard_eq, Bool.true_and] at h
   by_cases hb : (!t.isEmpty && !allow) = true
   · simp [hb] at h
   · simp only [hb, Bool.false_eq_true, if_false] at h
-    rw [decideLoop_spec ver t hnd] at h
-    by_cases hr : raises ver r t = true
+    rw [decideLoop_spec cfg ver t hnd] at h
+    by_cases hr : raises cfg ver r t = true
     · simp [hr] at h
     · simp only [hr, Bool.false_eq_true, if_false, List.nil_append] at h
       cases h
@@ -884,61 +915,147 @@ theorem phase1_go (ver : Ver V) (allow : Bool) (t : Table) (hnd : (t.map (·.nam
       | nil => left; rfl
       | cons x xs => right; simpa using hb
 
-theorem decidePkg_install_iff (ver : Ver V) (recd : Option Str) (e : Entry) :
-    decidePkg ver recd e = .install ↔ ShouldInstall ver recd e := by
-  unfold decidePkg ShouldInstall
+/-- **the generated per-package decision is the hand-written nested one** – re-proved against `Gen.REQ_DECIDE_ROWS`
+(read off requirements.py) on every run -/
+theorem decidePkg_eq_ref (cfg : Cfg) (ver : Ver V) (recd : Option Str) (e : Entry) :
+    decidePkg cfg ver recd e = decidePkgRef cfg ver recd e := by
+  unfold decidePkg decidePkgRef
+  cases truthy e.installed with
+  | none => simp [Gen.REQ_DECIDE_ROWS, notInstalledAct, hostAct]
+  | some inst =>
+    simp only [Gen.REQ_DECIDE_ROWS, hostRows, hostHolds, hostAct]
+    by_cases hu : e.version = UNP
+    · cases recd with
+      | none => simp [hu]
+      | some r => by_cases hr : r = inst <;> simp [hu, hr]
+    · cases recd with
+      | none => simp [hu]
+      | some r =>
+        simp only [hu, decide_false, Bool.false_and]
+        cases differs cfg ver r inst with
+        | none => rfl
+        | some d1 =>
+          cases d1 with
+          | true => rfl
+          | false =>
+            simp only
+            cases differs cfg ver e.version inst with
+            | none => rfl
+            | some d2 => cases d2 <;> rfl
+
+theorem sameV_iff (ver : Ver V) (a b : Str) : sameV ver a b = true ↔ SameV ver a b := by
+  unfold sameV SameV
+  by_cases hab : a = b
+  · simp [hab]
+  · simp only [beq_iff_eq, hab, Bool.false_or, false_or]
+    cases ha : ver.parse a <;> cases hb : ver.parse b <;> simp [hab]
+
+/-- when the comparison does not raise it decides `SameV` (for the direct `Version(a) != Version(b)` this needs
+reflexivity of `<=`: equal texts are equal versions) -/
+theorem differs_some (cfg : Cfg) (ver : Ver V) (ok : VerOk ver) (a b : Str) (d : Bool) (h : differs cfg ver a b = some d) :
+    d = true ↔ ¬ SameV ver a b := by
+  unfold differs at h
+  by_cases ht : cfg.tolerantCmp = true
+  · simp only [ht, if_true, Option.some.injEq] at h
+    rw [← h, ← sameV_iff]; simp
+  · simp only [ht, Bool.false_eq_true, if_false] at h
+    cases ha : ver.parse a with
+    | none => simp [ha] at h
+    | some x =>
+      cases hb : ver.parse b with
+      | none => simp [ha, hb] at h
+      | some y =>
+        simp only [ha, hb, Option.some.injEq] at h
+        rw [← h]
+        unfold SameV
+        simp only [ha, hb, Option.some.injEq, Bool.not_eq_true', not_or, not_exists, not_and]
+        constructor
+        · intro hv
+          refine ⟨?_, ?_⟩
+          · intro e; subst e
+            rw [ha] at hb; cases hb
+            simp [veq, ok.refl] at hv
+          · intro x' y' hx hy; subst hx; subst hy; simpa using hv
+        · intro hv
+          simpa using hv.2 x y rfl rfl
+
+theorem differs_tolerant (cfg : Cfg) (ver : Ver V) (ht : cfg.tolerantCmp = true) (a b : Str) :
+    differs cfg ver a b = some (!sameV ver a b) := by simp [differs, ht]
+
+/-- with the tolerant comparison nothing in the per-package decision can raise -/
+theorem decidePkg_ne_raise (cfg : Cfg) (ver : Ver V) (ht : cfg.tolerantCmp = true) (recd : Option Str) (e : Entry) :
+    decidePkg cfg ver recd e ≠ .raise := by
+  rw [decidePkg_eq_ref]
+  unfold decidePkgRef
+  cases truthy e.installed with
+  | none => simp
+  | some inst =>
+    simp only
+    by_cases hu : e.version = UNP
+    · simp only [hu, if_true]
+      cases recd with
+      | none => simp
+      | some r => by_cases hr : r ≠ inst <;> simp [hr]
+    · simp only [hu, if_false]
+      cases recd with
+      | none => simp
+      | some r =>
+        simp only [differs_tolerant cfg ver ht]
+        cases sameV ver r inst <;> cases sameV ver e.version inst <;> simp
+
+theorem decidePkg_install_iff (cfg : Cfg) (ver : Ver V) (ok : VerOk ver) (recd : Option Str) (e : Entry)
+    (hnr : decidePkg cfg ver recd e ≠ .raise) :
+    decidePkg cfg ver recd e = .install ↔ ShouldInstall ver recd e := by
+  rw [decidePkg_eq_ref] at hnr ⊢
+  unfold decidePkgRef at hnr ⊢
+  unfold ShouldInstall
   cases hi : truthy e.installed with
   | none => simp
   | some inst =>
-    simp only [reduceCtorEq, false_or]
+    simp only [hi] at hnr
+    simp only [reduceCtorEq, false_or, Option.some.injEq]
     by_cases hu : e.version = UNP
     · simp only [hu, if_true]
       constructor
       · intro h; cases recd with
         | none => cases h
         | some r => by_cases hr : r ≠ inst <;> simp [hr] at h
-      · rintro ⟨_, _, _, _, _, _, _, hne, _⟩; exact absurd rfl hne
-    · simp only [hu, if_false]
+      · rintro ⟨_, _, _, _, hne, _⟩; exact absurd rfl hne
+    · simp only [hu, if_false] at hnr ⊢
       cases recd with
       | none =>
         simp only [reduceCtorEq, false_iff]
-        rintro ⟨_, _, _, _, _, _, h, _⟩; cases h
+        rintro ⟨_, _, _, h, _⟩; cases h
       | some r =>
-        simp only
-        cases ha : ver.parse r with
-        | none =>
-          simp only [reduceCtorEq, false_iff]
-          rintro ⟨_, r', a, _, _, _, h1, _, h2, _⟩
-          cases h1; rw [ha] at h2; cases h2
-        | some a =>
-          cases hb : ver.parse inst with
-          | none =>
+        simp only at hnr ⊢
+        cases hd1 : differs cfg ver r inst with
+        | none => simp [hd1] at hnr
+        | some d1 =>
+          have e1 := differs_some cfg ver ok r inst d1 hd1
+          cases d1 with
+          | true =>
             simp only [reduceCtorEq, false_iff]
-            rintro ⟨i', _, _, b, _, h0, _, _, _, h2, _⟩
-            cases h0; rw [hb] at h2; cases h2
-          | some b =>
+            rintro ⟨i', r', h0, h1, _, h2, _⟩
+            cases h0; cases h1
+            exact (e1.1 rfl) h2
+          | false =>
+            have hs : SameV ver r inst :=
+              Classical.byContradiction (fun hc => absurd (e1.2 hc) (by simp))
+            simp only [hd1] at hnr
             simp only
-            by_cases hab : veq ver a b = true
-            · simp only [hab, Bool.not_true, Bool.false_eq_true, if_false]
-              cases hw : ver.parse e.version with
-              | none =>
+            cases hd2 : differs cfg ver e.version inst with
+            | none => simp [hd2] at hnr
+            | some d2 =>
+              have e2 := differs_some cfg ver ok e.version inst d2 hd2
+              cases d2 with
+              | true =>
+                simp only [true_iff]
+                exact ⟨inst, r, rfl, rfl, hu, hs, e2.1 rfl⟩
+              | false =>
                 simp only [reduceCtorEq, false_iff]
-                rintro ⟨_, _, _, _, _, _, _, _, _, _, h3, _⟩; cases h3
-              | some w =>
-                simp only
-                by_cases hwb : veq ver w b = true
-                · simp only [hwb, Bool.not_true, Bool.false_eq_true, if_false, reduceCtorEq, false_iff]
-                  rintro ⟨i', r', a', b', w', h0, h1, _, h2, h3, h4, _, h6⟩
-                  cases h0; cases h1; cases h4; rw [hb] at h3; cases h3
-                  rw [hwb] at h6; cases h6
-                · have hwb' : veq ver w b = false := by simpa using hwb
-                  simp only [hwb', Bool.not_false, if_true, true_iff]
-                  exact ⟨inst, r, a, b, w, rfl, rfl, hu, ha, hb, rfl, hab, hwb'⟩
-            · have hab' : veq ver a b = false := by simpa using hab
-              simp only [hab', Bool.not_false, if_true, reduceCtorEq, false_iff]
-              rintro ⟨i', r', a', b', _, h0, h1, _, h2, h3, _, h5, _⟩
-              cases h0; cases h1; rw [ha] at h2; rw [hb] at h3; cases h2; cases h3
-              rw [hab'] at h5; cases h5
+                rintro ⟨i', r', h0, h1, _, _, h3⟩
+                cases h0
+                exact absurd (e2.2 h3) (by simp)
 
 /-! ## F. the record after the run -/
 
@@ -1100,30 +1217,30 @@ theorem find_filter (t : Table) (hnd : (t.map (·.name)).Nodup) (P : Entry → B
         simp [hx, Option.filter, hp]
       · simp only [hx, if_false]; exact ih hnd.2
 
-theorem nodup_installs (ver : Ver V) (r : Rec) (t : Table) (hnd : (t.map (·.name)).Nodup) :
-    ((installs ver r t).map (·.name)).Nodup :=
+theorem nodup_installs (cfg : Cfg) (ver : Ver V) (r : Rec) (t : Table) (hnd : (t.map (·.name)).Nodup) :
+    ((installs cfg ver r t).map (·.name)).Nodup :=
   List.Pairwise.sublist (List.Sublist.map _ List.filter_sublist) hnd
 
 /-- the record entry of package `m` after the decision loop and `update`, before unpinned versions are resolved -/
-theorem rget_recUpdate_phase1 (ver : Ver V) (allow : Bool) (t : Table) (hnd : (t.map (·.name)).Nodup) (r r1 : Rec)
-    (ti : List Entry) (h : phase1 ver allow t r = .go r1 ti) (m : Str) :
-    rget (recUpdate r1 ti) m = recordRule ver t r m := by
-  obtain ⟨_, _, h1, h2⟩ := phase1_go ver allow t hnd r r1 ti h
+theorem rget_recUpdate_phase1 (cfg : Cfg) (ver : Ver V) (allow : Bool) (t : Table) (hnd : (t.map (·.name)).Nodup) (r r1 : Rec)
+    (ti : List Entry) (h : phase1 cfg ver allow t r = .go r1 ti) (m : Str) :
+    rget (recUpdate r1 ti) m = recordRule cfg ver t r m := by
+  obtain ⟨_, _, h1, h2⟩ := phase1_go cfg ver allow t hnd r r1 ti h
   subst h1 h2
-  rw [rget_recUpdate _ _ (nodup_installs ver r t hnd), installs, find_filter t hnd]
-  rw [rget_filter_key r (fun k => !popped ver r t k), popped_eq ver r t hnd]
+  rw [rget_recUpdate _ _ (nodup_installs cfg ver r t hnd), installs, find_filter t hnd]
+  rw [rget_filter_key r (fun k => !popped cfg ver r t k), popped_eq cfg ver r t hnd]
   unfold recordRule
   cases hf : find t m with
   | none => simp
   | some e =>
     have hn := (find_some_mem t m e hf).2
     subst hn
-    cases hd : decidePkg ver (rget r e.name) e <;> simp [Option.filter, hd]
+    cases hd : decidePkg cfg ver (rget r e.name) e <;> simp [Option.filter, hd]
 
-theorem nodup_phase1 (ver : Ver V) (allow : Bool) (t : Table) (hnd : (t.map (·.name)).Nodup) (r r1 : Rec)
-    (ti : List Entry) (h : phase1 ver allow t r = .go r1 ti) (hk : (keys r).Nodup) :
+theorem nodup_phase1 (cfg : Cfg) (ver : Ver V) (allow : Bool) (t : Table) (hnd : (t.map (·.name)).Nodup) (r r1 : Rec)
+    (ti : List Entry) (h : phase1 cfg ver allow t r = .go r1 ti) (hk : (keys r).Nodup) :
     (keys (recUpdate r1 ti)).Nodup := by
-  obtain ⟨_, _, h1, _⟩ := phase1_go ver allow t hnd r r1 ti h
+  obtain ⟨_, _, h1, _⟩ := phase1_go cfg ver allow t hnd r r1 ti h
   subst h1
   exact nodup_recUpdate _ _ (nodup_filter r _ hk)
 
@@ -1226,9 +1343,7 @@ theorem tableOk_mergeAll (cfg : Cfg) (ver : Ver V) (site : Str → Option Str) (
     unfold processLine
     split
     · exact h
-    · split
-      · exact h
-      · exact tableOk_merge1 ver site t _ _ _ h
+    · exact tableOk_merge1 ver site t _ _ _ h
 
 /-! ## H. a second run -/
 
@@ -1303,9 +1418,7 @@ theorem mergeAll_refresh (cfg : Cfg) (ver : Ver V) (site s : Str → Option Str)
     unfold processLine
     split
     · rfl
-    · split
-      · rfl
-      · exact (merge1_refresh ver site s t _ _ _).symm
+    · exact (merge1_refresh ver site s t _ _ _).symm
 
 theorem rget_mem (r : Rec) (m v : Str) (h : rget r m = some v) : (m, v) ∈ r := by
   induction r with
@@ -1317,11 +1430,11 @@ theorem rget_mem (r : Rec) (m v : Str) (h : rget r m = some v) : (m, v) ∈ r :=
     · simp only [hk, if_true, Option.some.injEq] at h; subst h; subst hk; simp
     · simp only [hk, if_false] at h; simp [ih h]
 
-theorem rget_phase2 (ver : Ver V) (allow : Bool) (t : Table) (hnd : (t.map (·.name)).Nodup) (r r1 : Rec)
-    (ti : List Entry) (h : phase1 ver allow t r = .go r1 ti) (hk : (keys r).Nodup) (site' : Str → Option Str) (m : Str) :
-    rget (phase2 site' r1 ti) m = resolveRule site' m (recordRule ver t r m) := by
+theorem rget_phase2 (cfg : Cfg) (ver : Ver V) (allow : Bool) (t : Table) (hnd : (t.map (·.name)).Nodup) (r r1 : Rec)
+    (ti : List Entry) (h : phase1 cfg ver allow t r = .go r1 ti) (hk : (keys r).Nodup) (site' : Str → Option Str) (m : Str) :
+    rget (phase2 site' r1 ti) m = resolveRule site' m (recordRule cfg ver t r m) := by
   unfold phase2
-  rw [rget_resolve site' _ (nodup_phase1 ver allow t hnd r r1 ti h hk), rget_recUpdate_phase1 ver allow t hnd r r1 ti h]
+  rw [rget_resolve site' _ (nodup_phase1 cfg ver allow t hnd r r1 ti h hk), rget_recUpdate_phase1 cfg ver allow t hnd r r1 ti h]
   rfl
 
 theorem truthy_some (x : Option Str) (i : Str) (h : truthy x = some i) : x = some i ∧ i ≠ [] := by
@@ -1338,15 +1451,15 @@ theorem truthy_of_ne (i : Str) (h : i ≠ []) : truthy (some i) = some i := by
   | cons c cs => rfl
 
 /-- the decision for every package in the second run, given the installer did its job: nothing to do -/
-theorem second_run_nothing (ver : Ver V) (site site' : Str → Option Str) (t : Table) (ht : TableOk site t)
+theorem second_run_nothing (cfg : Cfg) (ver : Ver V) (site site' : Str → Option Str) (t : Table) (ht : TableOk site t)
     (r : Rec) (hk : (keys r).Nodup) (hnu : ∀ kv ∈ r, kv.2 ≠ UNP) (allow : Bool) (r1 : Rec) (ti : List Entry)
-    (h : phase1 ver allow t r = .go r1 ti) (hio : InstallOk ver site site' ti) (e : Entry) (he : e ∈ t) :
-    decidePkg ver (rget (phase2 site' r1 ti) e.name) (refresh site' e) = .nothing := by
+    (h : phase1 cfg ver allow t r = .go r1 ti) (hio : InstallOk ver site site' ti) (e : Entry) (he : e ∈ t) :
+    decidePkg cfg ver (rget (phase2 site' r1 ti) e.name) (refresh site' e) = .nothing := by
   obtain ⟨hnd, hall⟩ := ht
-  rw [rget_phase2 ver allow t hnd r r1 ti h hk]
-  obtain ⟨_, hraise, _, hti⟩ := phase1_go ver allow t hnd r r1 ti h
+  rw [rget_phase2 cfg ver allow t hnd r r1 ti h hk]
+  obtain ⟨_, hraise, _, hti⟩ := phase1_go cfg ver allow t hnd r r1 ti h
   have hfind : find t e.name = some e := find_of_mem_nodup t hnd e he
-  have hnotin : decidePkg ver (rget r e.name) e ≠ .install → site' e.name = e.installed := by
+  have hnotin : decidePkg cfg ver (rget r e.name) e ≠ .install → site' e.name = e.installed := by
     intro hd
     rw [(hall e he).1]
     apply hio.others
@@ -1357,10 +1470,10 @@ theorem second_run_nothing (ver : Ver V) (site site' : Str → Option Str) (t : 
     cases this
     exact hd hx.2
   simp only [recordRule, hfind]
-  cases hd : decidePkg ver (rget r e.name) e with
+  cases hd : decidePkg cfg ver (rget r e.name) e with
   | raise =>
     exfalso
-    have : raises ver r t = true := by
+    have : raises cfg ver r t = true := by
       simp only [raises, List.any_eq_true, beq_iff_eq]
       exact ⟨e, he, hd⟩
     rw [hraise] at this; cases this
@@ -1370,16 +1483,20 @@ theorem second_run_nothing (ver : Ver V) (site site' : Str → Option Str) (t : 
     by_cases hu : e.version = UNP
     · obtain ⟨i, hi, hine⟩ := hio.unpinned e hmem hu
       simp only [hu, if_true, hi, truthy_of_ne i hine]
-      simp [decidePkg, refresh, hi, truthy_of_ne i hine, hu]
+      simp [decidePkg_eq_ref, decidePkgRef, refresh, hi, truthy_of_ne i hine, hu]
     · obtain ⟨i, w, b, hi, hine, hw, hb, hwb⟩ := hio.pinned e hmem hu
       simp only [hu, if_false]
-      simp [decidePkg, refresh, hi, truthy_of_ne i hine, hu, hw, hb, hwb]
+      have hd0 : differs cfg ver e.version i = some false := by
+        unfold differs
+        cases cfg.tolerantCmp <;> simp [sameV, hw, hb, hwb]
+      simp [decidePkg_eq_ref, decidePkgRef, refresh, hi, truthy_of_ne i hine, hu, hd0]
   | pop =>
     simp only [resolveRule]
     have hs := hnotin (by rw [hd]; decide)
     have href : refresh site' e = e := by cases e; simp only [refresh] at hs ⊢; rw [hs]
     rw [href]
-    unfold decidePkg at hd ⊢
+    rw [decidePkg_eq_ref] at hd ⊢
+    unfold decidePkgRef at hd ⊢
     cases hti' : truthy e.installed with
     | none => simp only [hti'] at hd; cases hd
     | some inst => by_cases hu : e.version = UNP <;> simp [hu]
@@ -1426,34 +1543,35 @@ theorem resolve_id (site' : Str → Option Str) (R : Rec) (h : ∀ kv ∈ R, kv.
     exact h
   simp [this]
 
-theorem second_run (ver : Ver V) (site site' : Str → Option Str) (t : Table) (ht : TableOk site t)
+theorem second_run (cfg : Cfg) (ver : Ver V) (site site' : Str → Option Str) (t : Table) (ht : TableOk site t)
     (r : Rec) (hk : (keys r).Nodup) (hnu : ∀ kv ∈ r, kv.2 ≠ UNP) (allow : Bool) (r1 : Rec) (ti : List Entry)
-    (h : phase1 ver allow t r = .go r1 ti) (hio : InstallOk ver site site' ti) (hs : ∀ n, site' n ≠ some UNP) :
-    phase1 ver allow (t.map (refresh site')) (phase2 site' r1 ti) = .go (phase2 site' r1 ti) [] ∧
+    (h : phase1 cfg ver allow t r = .go r1 ti) (hio : InstallOk ver site site' ti) (hs : ∀ n, site' n ≠ some UNP) :
+    phase1 cfg ver allow (t.map (refresh site')) (phase2 site' r1 ti) = .go (phase2 site' r1 ti) [] ∧
     phase2 site' (phase2 site' r1 ti) [] = phase2 site' r1 ti := by
-  have hdec : ∀ x ∈ t.map (refresh site'), decidePkg ver (rget (phase2 site' r1 ti) x.name) x = .nothing := by
+  have hdec : ∀ x ∈ t.map (refresh site'), decidePkg cfg ver (rget (phase2 site' r1 ti) x.name) x = .nothing := by
     intro x hx
     obtain ⟨e, he, rfl⟩ := List.mem_map.1 hx
-    exact second_run_nothing ver site site' t ht r hk hnu allow r1 ti h hio e he
+    exact second_run_nothing cfg ver site site' t ht r hk hnu allow r1 ti h hio e he
   have hnames : (t.map (refresh site')).map (·.name) = t.map (·.name) := by
     simp only [List.map_map]; rfl
   have hnd' : ((t.map (refresh site')).map (·.name)).Nodup := by rw [hnames]; exact ht.1
-  obtain ⟨hallow, _, _, _⟩ := phase1_go ver allow t ht.1 r r1 ti h
+  obtain ⟨hallow, _, _, _⟩ := phase1_go cfg ver allow t ht.1 r r1 ti h
   constructor
   · unfold phase1
     have hb : (!(t.map (refresh site')).isEmpty && !allow) = false := by
       rcases hallow with h0 | h0
       · subst h0; rfl
       · subst h0; simp
+    rw [optinGuard_eq, Bool.true_and]
     simp only [hb, Bool.false_eq_true, if_false]
-    rw [decideLoop_spec ver _ hnd']
-    have h1 : raises ver (phase2 site' r1 ti) (t.map (refresh site')) = false := by
+    rw [decideLoop_spec cfg ver _ hnd']
+    have h1 : raises cfg ver (phase2 site' r1 ti) (t.map (refresh site')) = false := by
       simp only [raises, List.any_eq_false, beq_iff_eq]
       intro x hx; rw [hdec x hx]; decide
-    have h2 : installs ver (phase2 site' r1 ti) (t.map (refresh site')) = [] := by
+    have h2 : installs cfg ver (phase2 site' r1 ti) (t.map (refresh site')) = [] := by
       simp only [installs, List.filter_eq_nil_iff, beq_iff_eq]
       intro x hx; rw [hdec x hx]; decide
-    have h3 : ∀ n, popped ver (phase2 site' r1 ti) (t.map (refresh site')) n = false := by
+    have h3 : ∀ n, popped cfg ver (phase2 site' r1 ti) (t.map (refresh site')) n = false := by
       intro n
       simp only [popped, List.any_eq_false, Bool.and_eq_true, beq_iff_eq, not_and]
       intro x hx _; rw [hdec x hx]; decide
@@ -1464,12 +1582,16 @@ theorem second_run (ver : Ver V) (site site' : Str → Option Str) (t : Table) (
     simp only [recUpdate, List.foldl_nil]
     exact resolve_id site' _ (resolve_noUnp site' hs _)
 
-theorem decidePkg_pop_iff (ver : Ver V) (recd : Option Str) (e : Entry) :
-    decidePkg ver recd e = .pop ↔ ExternallyChanged ver recd e := by
-  unfold decidePkg ExternallyChanged
+theorem decidePkg_pop_iff (cfg : Cfg) (ver : Ver V) (ok : VerOk ver) (recd : Option Str) (e : Entry)
+    (hnr : decidePkg cfg ver recd e ≠ .raise) :
+    decidePkg cfg ver recd e = .pop ↔ ExternallyChanged ver recd e := by
+  rw [decidePkg_eq_ref] at hnr ⊢
+  unfold decidePkgRef at hnr ⊢
+  unfold ExternallyChanged
   cases hi : truthy e.installed with
   | none => simp
   | some inst =>
+    simp only [hi] at hnr
     by_cases hu : e.version = UNP
     · simp only [hu, if_true]
       cases recd with
@@ -1478,47 +1600,55 @@ theorem decidePkg_pop_iff (ver : Ver V) (recd : Option Str) (e : Entry) :
         by_cases hr : r = inst
         · subst hr; simp
         · simp only [ne_eq, hr, not_false_eq_true, if_true, true_iff]
-          exact ⟨inst, r, rfl, rfl, Or.inl ⟨by simp, hr⟩⟩
-    · simp only [hu, if_false]
+          exact ⟨inst, r, rfl, rfl, Or.inl ⟨trivial, hr⟩⟩
+    · simp only [hu, if_false] at hnr ⊢
       cases recd with
       | none => simp
       | some r =>
-        simp only
-        cases ha : ver.parse r with
-        | none =>
-          simp only [reduceCtorEq, false_iff]
-          rintro ⟨_, r', _, h1, h2⟩
-          cases h1
-          rcases h2 with ⟨h3, _⟩ | ⟨_, a, _, h3, _⟩
-          · exact h3.elim
-          · rw [ha] at h3; cases h3
-        | some a =>
-          cases hb : ver.parse inst with
-          | none =>
-            simp only [reduceCtorEq, false_iff]
-            rintro ⟨i', r', h0, h1, h2⟩
-            cases h0; cases h1
-            rcases h2 with ⟨h3, _⟩ | ⟨_, _, b, _, h3, _⟩
-            · exact h3.elim
-            · rw [hb] at h3; cases h3
-          | some b =>
-            simp only
-            by_cases hab : veq ver a b = true
-            · simp only [hab, Bool.not_true, Bool.false_eq_true, if_false]
-              constructor
-              · intro h
-                cases hw : ver.parse e.version with
-                | none => simp [hw] at h
-                | some w => by_cases hwb : veq ver w b = true <;> simp [hw, hwb] at h
-              · rintro ⟨i', r', h0, h1, h2⟩
-                cases h0; cases h1
-                rcases h2 with ⟨h3, _⟩ | ⟨_, a', b', h3, h4, h5⟩
-                · exact h3.elim
-                · rw [ha] at h3; rw [hb] at h4; cases h3; cases h4
-                  rw [hab] at h5; cases h5
-            · have hab' : veq ver a b = false := by simpa using hab
-              simp only [hab', Bool.not_false, if_true, true_iff]
-              exact ⟨inst, r, rfl, rfl, Or.inr ⟨by simp [hu], a, b, ha, hb, hab'⟩⟩
+        simp only at hnr ⊢
+        cases hd1 : differs cfg ver r inst with
+        | none => simp [hd1] at hnr
+        | some d1 =>
+          have e1 := differs_some cfg ver ok r inst d1 hd1
+          cases d1 with
+          | true =>
+            simp only [true_iff]
+            exact ⟨inst, r, rfl, rfl, Or.inr ⟨hu, e1.1 rfl⟩⟩
+          | false =>
+            have hs : SameV ver r inst :=
+              Classical.byContradiction (fun hc => absurd (e1.2 hc) (by simp))
+            constructor
+            · intro h
+              simp only [hd1] at hnr
+              cases hd2 : differs cfg ver e.version inst with
+              | none => simp [hd2] at hnr
+              | some d2 => cases d2 <;> simp [hd2] at h
+            · rintro ⟨i', r', h0, h1, h2⟩
+              cases h0; cases h1
+              rcases h2 with ⟨h3, _⟩ | ⟨_, h3⟩
+              · exact h3.elim
+              · exact absurd hs h3
+
+theorem not_raise_of_raises_false (cfg : Cfg) (ver : Ver V) (r : Rec) (t : Table) (h : raises cfg ver r t = false)
+    (e : Entry) (he : e ∈ t) : decidePkg cfg ver (rget r e.name) e ≠ .raise := by
+  intro hd
+  have : raises cfg ver r t = true := by
+    simp only [raises, List.any_eq_true, beq_iff_eq]
+    exact ⟨e, he, hd⟩
+  rw [h] at this; cases this
+
+/-- the decision loop ends normally whenever no single decision can raise (no assumption on the table) -/
+theorem decideLoop_isSome (cfg : Cfg) (ver : Ver V) (hnr : ∀ recd e, decidePkg cfg ver recd e ≠ .raise) (t : Table)
+    (st : LoopSt) : ∃ st', decideLoop cfg ver t st = some st' := by
+  induction t generalizing st with
+  | nil => exact ⟨st, rfl⟩
+  | cons e es ih =>
+    simp only [decideLoop]
+    cases hd : decidePkg cfg ver (rget st.recd e.name) e with
+    | raise => exact absurd hd (hnr _ _)
+    | install => simp only [applyDec]; exact ih _
+    | pop => simp only [applyDec]; exact ih _
+    | nothing => simp only [applyDec]; exact ih _
 
 /-! ## the numeric instance is a total preorder -/
 
